@@ -10,9 +10,14 @@ Open Scope Z_scope.
 
 (* ---- func (ck LineChecker) CheckTrailingWhitespace() ----
    raws = the raw lines of the logical line; only the last one is looked at *)
+(* hasSuffix(s, "\\") *)
+Definition ends_backslash (s : str) : bool := (last s 0 =? 92)%N.
+
 Definition trim_raw (t : str) : res str :=
   let trimmedLen := len (rtrimHspace t) in
   if trimmedLen =? len t then Ok t
+  else if ends_backslash (firstn (Z.to_nat trimmedLen) t) then Ok t
+       (* /repo a0c5e27: without the blanks the backslash would continue the line *)
   else replace_at t trimmedLen (skipn (Z.to_nat trimmedLen) t) [].
 
 Fixpoint checkTrailingWhitespace (raws : list str) : res (list str) :=
@@ -111,6 +116,9 @@ Definition OP_ASSIGN : str := [61]%N.
 Definition OP_APPEND : str := [43; 61]%N.
 Definition OP_EVAL : str := [58; 61]%N.
 
+(* hasSuffix(s, suffix) *)
+Definition has_suffix_b (suffix s : str) : bool := has_prefix (rev suffix) (rev s).
+
 Definition fixSpaceAfterVarname (raws : list str) (varname spaceAfterVarname op : str) (p0 : parts)
   : res (list str) :=
   if is_nil spaceAfterVarname then Ok raws
@@ -118,5 +126,10 @@ Definition fixSpaceAfterVarname (raws : list str) (varname spaceAfterVarname op 
   else if starts_lower varname && str_eqb op OP_EVAL then Ok raws
   else
     let before := lc p0 ++ vo p0 ++ sbv p0 in
-    after <- lift (alignWith (lc p0 ++ varname ++ op) before) ;;
-    Ok (replaceAfter raws [] before after).
+    (* only the blanks directly in front of the operator go; the name is taken from the raw text
+       (/repo 84b7475: it may contain an escaped '#'; it may also contain blanks inside ${...}) *)
+    if negb (has_suffix_b op (vo p0)) then Ok raws                 (* if !hasSuffix(parts.varnameOp, opText) { return } *)
+    else
+      let rawVarname := rtrimHspace (firstn (length (vo p0) - length op) (vo p0)) in
+      after <- lift (alignWith (lc p0 ++ rawVarname ++ op) before) ;;
+      Ok (replaceAfter raws [] before after).
